@@ -210,24 +210,30 @@ def chk_combine(c):
 
 
 def chk_initial(c):
+    """space-time initial/final conditions on the cylinder G(x, t) = (G~(x), t): parametric time = physical time, so the time knot vector
+    spans the real time interval [t0, t1] (not necessarily [0, 1]); value and time derivative are reproduced on the chosen face"""
     from pyiga import assemble, bspline, geometry
     p = c['p']
-    kvs = (bspline.make_knots(p, 0.0, 1.0, 3), bspline.make_knots(p, 0.0, 1.0, 4))      # (t, x)
-    geo = geometry.unit_square()
+    t0, t1 = c.get('tint', [0.0, 1.0])
+    kvs = (bspline.make_knots(p, t0, t1, 3), bspline.make_knots(p, 0.0, 1.0, 4))      # (t, x)
+    geo = geometry.tensor_product(geometry.line_segment(t0, t1, support=(t0, t1)), geometry.line_segment(0.0, 1.0))
     side = c['side']
     g0 = lambda x, t: 1 + 2 * x
     g1 = lambda x, t: 3 - x
     idx, val = assemble.compute_initial_condition_01(kvs, geo, (0, side), g0, g1)
     N = tuple(kv.numdofs for kv in kvs)
+    # the two slices of dofs next to the chosen face, each dof once
+    want = np.concatenate([assemble.slice_indices(0, k, N, ravel=True) for k in ((0, 1) if side == 0 else (N[0] - 2, N[0] - 1))])
+    assert sorted(idx.tolist()) == sorted(want.tolist()), 'constrained dofs are not the two time slices next to the face'
     coeffs = np.zeros(int(np.prod(N)))
     coeffs[idx] = val
     f = bspline.BSplineFunc(kvs, coeffs.reshape(N))
     xs = np.linspace(0, 1, 5)
-    t = np.array([0.0 if side == 0 else 1.0])
+    t = np.array([t0 if side == 0 else t1])
     V = f.grid_eval((t, xs))[0]
     J = f.grid_jacobian((t, xs))[0]
-    assert np.max(np.abs(V - (1 + 2 * xs))) <= 1e-10, 'initial values'
-    assert np.max(np.abs(J[..., 1] - (3 - xs))) <= 1e-9, 'initial time derivative'
+    assert np.all(np.isfinite(val)) and np.max(np.abs(V - (1 + 2 * xs))) <= 1e-9, 'values on the face of the time interval %r (side %d): max error %r' % ([t0, t1], side, np.max(np.abs(V - (1 + 2 * xs))))
+    assert np.max(np.abs(J[..., 1] - (3 - xs))) <= 1e-8, 'time derivative on the face of the time interval %r (side %d)' % ([t0, t1], side)
 
 
 def chk_bc1d(c):
@@ -286,6 +292,8 @@ def generate(tier, rng):
     for p in (1, 2, 3):
         for side in (0, 1):
             yield 'initial', {'p': p, 'side': side}
+            for tint in ([0.0, 2.0], [1.0, 3.0], [-0.5, 0.25], [0.0, 0.1]):
+                yield 'initial', {'p': p, 'side': side, 'tint': tint}
 
 
 if __name__ == '__main__':
